@@ -37,6 +37,10 @@ type uField struct {
 	Inline    string
 	InFields  []uField
 	InOptions []string
+	// text-only variations the compiler must ignore for the compared output: an explicit
+	// `protoField = [n]` (numbering is positional: mapProperties) and a description
+	ProtoField int
+	Desc       string
 }
 
 type eSchema struct {
@@ -116,6 +120,7 @@ type eSummary struct {
 }
 
 type entityDecl struct {
+	Desc      string // `description = "..."` of the entity (not part of the compared output)
 	Pkg       string
 	Name      string
 	BaseURL   string
@@ -295,6 +300,12 @@ func printField(sb *strings.Builder, indent, word string, u uField, extra ...str
 	if u.Key && u.Tenant != nil {
 		attrs = append(attrs, fmt.Sprintf("tenant = %q", *u.Tenant))
 	}
+	if u.ProtoField != 0 {
+		attrs = append(attrs, fmt.Sprintf("protoField = [%d]", u.ProtoField))
+	}
+	if u.Desc != "" {
+		attrs = append(attrs, fmt.Sprintf("description = %q", u.Desc))
+	}
 	attrs = append(attrs, extra...)
 	if len(attrs) == 0 && u.Inline == "" {
 		sb.WriteString("\n")
@@ -350,6 +361,9 @@ func (d *entityDecl) block() string {
 	sb.WriteString("entity " + d.Name + " {\n")
 	if d.BaseURL != "" {
 		fmt.Fprintf(&sb, "\tbaseUrlPath = %q\n", d.BaseURL)
+	}
+	if d.Desc != "" {
+		fmt.Fprintf(&sb, "\tdescription = %q\n", d.Desc)
 	}
 	for _, k := range d.Keys {
 		printField(&sb, "\t", "key", k.uField, k.extraAttrs()...)
